@@ -281,3 +281,32 @@ func VerifC01_ThriftLargeBody() {
 	verif.Assert(xf2.GetRequestId() == id, "request id differs after re-encode")
 	verif.Assert(string(xf2.GetData().Bytes()) == string(nb), "forwarded body is not the replaced body")
 }
+
+// VerifC08_ThriftInnerLength: a dubbo-thrift frame carries its length twice
+// (the 4-byte prefix that frames the stream, and a copy inside the message
+// header). The frame is well formed except that the inner copy is arbitrary
+// (32 symbolic bits) - a peer can send that. Whatever the value, a decoded
+// frame takes exactly the prefix-delimited bytes out of the read buffer (so
+// the decode loop makes progress and the frame behind it is read next), or
+// the frame is refused with an error; never a panic.
+func VerifC08_ThriftInnerLength() {
+	verif.NoPanic()
+	f := zzFrame("f", 1)
+	inner := verif.U32("inner_length")
+	f[6], f[7], f[8], f[9] = byte(inner>>24), byte(inner>>16), byte(inner>>8), byte(inner)
+	g := zzFrame("g", 0)
+	wire := append(append([]byte{}, f...), g...)
+	buf := buffer.NewIoBufferBytes(verif.WithStaleCap(wire, 64))
+	frame, err := thriftProtocol{}.Decode(zzCtx(), buf)
+	if err != nil {
+		return // refusing such a frame is fine (the unchanged decoder ignores the inner copy)
+	}
+	verif.Assert(frame != nil, "a complete frame is neither decoded nor refused")
+	if frame == nil {
+		return
+	}
+	verif.Assert(buf.Len() == len(g), "a decoded frame did not take exactly its prefix-delimited bytes out of the read buffer (no progress: the same bytes are decoded again for ever - or bytes of the next frame are lost)")
+	frame2, err := thriftProtocol{}.Decode(zzCtx(), buf)
+	verif.Assert(frame2 != nil && err == nil && buf.Len() == 0, "the frame behind a frame with an odd inner length does not decode")
+	verif.Cover("end")
+}
